@@ -461,6 +461,11 @@ class CryptographyEngine(api.CryptographicEngine):
             )
 
         is_gcm_mode = cipher_mode == enums.BlockCipherMode.GCM
+        if is_gcm_mode and \
+                encryption_algorithm == enums.CryptographicAlgorithm.RC4:
+            raise exceptions.InvalidField(
+                "GCM mode cannot be used with the RC4 stream cipher."
+            )
         if not is_gcm_mode and auth_additional_data is not None:
             raise exceptions.InvalidField(
                 'Authenticated encryption additional data is supported '
@@ -824,6 +829,11 @@ class CryptographyEngine(api.CryptographicEngine):
             )
 
         is_gcm_mode = cipher_mode == enums.BlockCipherMode.GCM
+        if is_gcm_mode and \
+                decryption_algorithm == enums.CryptographicAlgorithm.RC4:
+            raise exceptions.InvalidField(
+                "GCM mode cannot be used with the RC4 stream cipher."
+            )
         if auth_additional_data is not None and not is_gcm_mode:
             raise exceptions.InvalidField(
                 'Additional data is supported in GCM mode only.'
